@@ -17,7 +17,7 @@ func runC06(p *Program, r *Report) {
 	for _, m := range []struct {
 		r string
 		n int
-	}{{"C06.R1", 2}, {"C06.R2", 4}, {"C06.R3", 1}, {"C06.R4", 1}, {"C06.R5", 4}, {"C06.R6", 4}, {"C06.R8", 7}} {
+	}{{"C06.R1", 2}, {"C06.R2", 4}, {"C06.R3", 1}, {"C06.R4", 1}, {"C06.R5", 4}, {"C06.R6", 4}, {"C06.R8", 7}, {"C06.R10", 1}} {
 		r.Min(m.r, m.n)
 	}
 	tsp := p.SSAPkg("template")
@@ -128,6 +128,7 @@ func runC06(p *Program, r *Report) {
 	}
 	// ---- R6 memo discipline --------------------------------------------------------------------------------
 	checkMemoDiscipline(p, r, "C06.R6")
+	checkChainAppendedUnconditionally(p, r, "C06.R10")
 	checkMemoOutput(p, r, "C06.R7")
 	checkSpeculativeMerge(p, r, "C06.R8")
 	// ---- R4 memo key -------------------------------------------------------------------------------------
